@@ -6,14 +6,15 @@
 # nor does it submit to any jurisdiction.
 
 from pymbolic.mapper.stringifier import (
-    PREC_UNARY, PREC_LOGICAL_AND, PREC_LOGICAL_OR, PREC_COMPARISON, PREC_NONE
+    PREC_UNARY, PREC_LOGICAL_AND, PREC_LOGICAL_OR, PREC_COMPARISON, PREC_NONE, PREC_POWER
 )
-from pymbolic.primitives import FloorDiv, Remainder, Product, Quotient
+from pymbolic.primitives import FloorDiv, Remainder, Product, Quotient, Power
 
 from loki.backend.pprint import Stringifier
 from loki.backend.style import FortranStyle
 
 from loki.expression import LokiStringifyMapper, StringLiteral
+from loki.expression.operations import ParenthesisedPow
 from loki.ir import get_pragma_parameters
 from loki.tools import as_tuple, JoinableStringList, flatten
 from loki.types import DataType, BasicType, DerivedType, ProcedureType
@@ -73,6 +74,18 @@ class FCodeMapper(LokiStringifyMapper):
                         self.COMPARISON_OP_TO_FORTRAN[expr.operator],
                         self.rec(expr.right, PREC_COMPARISON, *args, **kwargs)),
             enclosing_prec, PREC_COMPARISON)
+
+    def map_power(self, expr, enclosing_prec, *args, **kwargs):
+        """
+        Fortran's ``**`` is right-associative and binds tighter than a leading sign, so a base that is
+        itself an (unparenthesised) power or whose text starts with a minus needs explicit parentheses.
+        """
+        base = self.rec(expr.base, PREC_POWER, *args, **kwargs)
+        if (isinstance(expr.base, Power) and not isinstance(expr.base, ParenthesisedPow)) or base.startswith('-'):
+            base = self.parenthesize(base)
+        return self.parenthesize_if_needed(
+            self.format('%s**%s', base, self.rec(expr.exponent, PREC_POWER, *args, **kwargs)),
+            enclosing_prec, PREC_POWER)
 
     def map_literal_list(self, expr, enclosing_prec, *args, **kwargs):
         values = ', '.join(self.rec(c, PREC_NONE, *args, **kwargs) for c in expr.elements)
